@@ -215,6 +215,7 @@ def build_world(kind):
 
 
 class PatchesFromEd(Contract):
+    locals_order = ['source', 're_cmd', 'i', 'patch_re', 'line', 'match', 'first_', 'last_', 'cmd', 'first', 'last', 'lines', 'c']
     target = MOD + ":patches_from_ed_script"
     modular = False
     requires = ()
@@ -261,6 +262,7 @@ class PatchesFromEd(Contract):
 
 
 class PatchLines(Contract):
+    locals_order = ['lines', 'patches', 'first', 'last', 'args']
     target = MOD + ":patch_lines"
     modular = False
     requires = ()
